@@ -96,6 +96,8 @@ def _display_transforms(rng, variables):
 
 
 def gen_case(rng, k):
+    if rng.random() < 0.12:
+        return gen_large_case(rng, k)
     r = rng.random()
     strand = r < 0.25
     if strand:
@@ -150,6 +152,115 @@ def gen_case(rng, k):
             "transforms": transforms, "hidden": hidden,
             "dimvals": [[None if x is None else str(x) for x in d] for d in dimvals],
             "integer_weights": int_w or not sv.weighted}
+
+
+# ---- large-N near-tie stream (blind spot found by a seeded change: np.isclose instead of == 0.5) ----
+
+LARGE_PATTERNS = ("last_of_category", "first_of_next", "exact_tie", "tie_plus_one", "tie_minus_one", "random")
+
+
+def _composition(rng, total, k):
+    """k non-negative integers summing to total"""
+    cuts = sorted(rng.randint(0, total) for _ in range(k - 1))
+    return [b - a for a, b in zip([0] + cuts, cuts + [total])]
+
+
+def design_vector(rng, vals, pattern):
+    """Integer counts (one per category, payload order) of 1e5 .. 3e5 numeric-valued respondents whose
+    cumulative count IN VALUE ORDER passes N/2 as `pattern` says:
+      last_of_category  N = 2m+1, cumulative m+1 at a category: the middle respondent is its last one
+                        (cumulative share 1/2 + 1/(2N), i.e. within 5e-6 of 1/2: an approximate
+                        'exactly 50%' test averages with the next value)
+      first_of_next     N = 2m+1, cumulative m: the middle respondent is the first of the next category
+      exact_tie         N = 2m,   cumulative m: the median is the mean of the two neighbouring values
+      tie_plus_one / tie_minus_one   N = 2m, cumulative m+1 / m-1
+    with zero-count categories anywhere (also right after the pivot)."""
+    order = sort_order(vals)
+    n = len(vals)
+    if len(order) < 2 or pattern == "random":
+        return [rng.randint(0, 120000) for _ in range(n)]
+    m = rng.randint(50000, 150000)
+    N = 2 * m + 1 if pattern in ("last_of_category", "first_of_next") else 2 * m
+    target = {"last_of_category": m + 1, "first_of_next": m, "exact_tie": m,
+              "tie_plus_one": m + 1, "tie_minus_one": m - 1}[pattern]
+    p = rng.randint(0, len(order) - 2)
+    pre = _composition(rng, target - 1, p + 1)
+    pre[-1] += 1                      # the pivot category is not empty
+    if p >= 1 and rng.random() < 0.3:
+        q = rng.randrange(p)
+        pre[-1] += pre[q]
+        pre[q] = 0
+    suf = _composition(rng, N - target, len(order) - p - 1)
+    if len(suf) >= 2 and rng.random() < 0.4:
+        suf[1] += suf[0]              # nobody holds the value right after the pivot
+        suf[0] = 0
+    counts = [rng.randint(0, 60000) for _ in range(n)]   # categories without a value: anything
+    for pos, c in zip(order, pre + suf):
+        counts[pos] = c
+    return counts
+
+
+def gen_large_case(rng, k):
+    strand = rng.random() < 0.2
+    patterns = []
+
+    def valued(alias):
+        for _ in range(20):
+            v = _numeric_var(rng, alias, date=rng.random() < 0.1)
+            if sum(1 for c in v.cats if c["numeric_value"] is not None) >= 2:
+                return v
+        return gen.make_cat(rng, alias, n_valid=4, numeric="all")
+
+    if strand:
+        rowv = valued("rowv")
+        variables, aliases = [rowv], ["rowv"]
+        pat = rng.choice(LARGE_PATTERNS)
+        patterns.append(pat)
+        vec = design_vector(rng, _vals_of(rowv), pat)
+        sv = gen.Survey(variables, 0, rng, weighted=True)
+        valid = [i for i, c in enumerate(rowv.cats) if not c["missing"]]
+        for i, n in zip(valid, vec):
+            if n:
+                sv.resp.append({"ans": {"rowv": i}, "w": Fraction(n), "num": {}})
+        shape = "large_" + rowv.kind
+    else:
+        rowv, colv = valued("rowv"), valued("colv")
+        variables, aliases = [rowv, colv], ["rowv", "colv"]
+        rvals, cvals = _vals_of(rowv), _vals_of(colv)
+        by_columns = rng.random() < 0.6          # design every column (values of the rows) or every row
+        if by_columns:
+            vecs = []
+            for _ in cvals:
+                pat = rng.choice(LARGE_PATTERNS)
+                patterns.append(pat)
+                vecs.append(design_vector(rng, rvals, pat))
+            table = [[vecs[j][i] for j in range(len(cvals))] for i in range(len(rvals))]
+        else:
+            table = []
+            for _ in rvals:
+                pat = rng.choice(LARGE_PATTERNS)
+                patterns.append(pat)
+                table.append(design_vector(rng, cvals, pat))
+        for v in variables:
+            if rng.random() < 0.4:
+                v.view_insertions = gen.random_insertions(rng, v)
+        sv = gen.Survey(variables, 0, rng, weighted=True)
+        ridx = [i for i, c in enumerate(rowv.cats) if not c["missing"]]
+        cidx = [i for i, c in enumerate(colv.cats) if not c["missing"]]
+        for i, row in enumerate(table):
+            for j, n in enumerate(row):
+                if n:
+                    sv.resp.append({"ans": {"rowv": ridx[i], "colv": cidx[j]}, "w": Fraction(n), "num": {}})
+        shape = "large_%s_x_%s" % (rowv.kind, colv.kind)
+    resp = gen.cube_response(sv, aliases)
+    transforms, hidden = ({}, {})
+    if not strand and rng.random() < 0.3:
+        transforms, hidden = _display_transforms(rng, variables)
+    dv = [_vals_of(v) for v in variables]
+    return {"k": k, "strand": strand, "shape": shape, "response": resp,
+            "transforms": transforms, "hidden": hidden,
+            "dimvals": [[None if x is None else str(x) for x in d] for d in dv],
+            "integer_weights": True, "large": True, "patterns": patterns}
 
 
 def exhaustive_cases(tier):
@@ -298,6 +409,13 @@ def vec_term(v):
             % (vals, c, b, vals, d, c, b, vals, d, c, b, vals, m, vals, g_ord, g_ord, d, c, vals))
 
 
+def _cum_median(order, g_counts, g_values):
+    """Gallina `option xq`: the cumulative-count median (Model/Scale.v weighted_median through
+    scale_median_vec, no expansion into respondents) with NaN (nobody) as None"""
+    return ("match scale_median_vec %s false %s %s with NaN => @None xq | m => Some m end"
+            % (g_list([g_nat(i) for i in order]), g_counts, g_values))
+
+
 def build_term(case, io):
     """One Gallina term per case.  None when the implementation raised on an input read."""
     A = io["A"]
@@ -309,9 +427,15 @@ def build_term(case, io):
         base, _subs = impl.blocks1d(A["counts"][1], A["row_order"][1], n, nsub)
         vals = dimvals(case)[0]
         c, v = g_vec(base), g_vals(vals)
-        t = ("(r_opt r_xq (strand_scale_mean %s %s) ++ r_opt r_xq (strand_scale_median %s %s)"
+        med = "strand_scale_median %s %s" % (c, v)
+        if case.get("large"):
+            # 1e5 .. 3e5 respondents: the model's expansion (repeat + insertion sort) is infeasible;
+            # the cumulative rule needs none and IS the respondents' median (C14_median_eq,
+            # C14_median_sorted_categories); NaN (nobody) is the strand's None
+            med = _cum_median(sort_order(vals), c, v)
+        t = ("(r_opt r_xq (strand_scale_mean %s %s) ++ r_opt r_xq (%s)"
              " ++ r_opt r_xq (strand_scale_stddev_sq %s %s) ++ r_opt r_xq (strand_scale_stderr_sq %s %s))"
-             % (c, v, c, v, c, v, c, v))
+             % (c, v, med, c, v, c, v))
         return t, {"base": base, "vals": vals}
     need = ("counts", "row_weighted_bases", "column_weighted_bases", "rows_margin", "columns_margin",
             "row_order", "column_order", "diff_row_idxs", "diff_column_idxs")
@@ -327,6 +451,9 @@ def build_term(case, io):
         mv = vs["margin_vec"].get(o)
         if mv is None:
             parts.append("[]")
+        elif case.get("large"):
+            parts.append("(r_xq (scale_mean_margin %s %s) ++ r_opt r_xq (%s))"
+                         % (g_vec(mv), g_vals(vv), _cum_median(sort_order(vv), g_vec(mv), g_vals(vv))))
         else:
             parts.append("(r_xq (scale_mean_margin %s %s) ++ r_opt r_xq (scale_median_margin %s %s))"
                          % (g_vec(mv), g_vals(vv), g_vec(mv), g_vals(vv)))
@@ -357,11 +484,54 @@ def oracle_vector(counts, vals, is_diff):
         res["mean"] = mean
         res["var"] = sum(c * (v - mean) ** 2 for v, c in pairs) / tot
     if all(c.denominator == 1 for _v, c in pairs):
-        expanded = []
-        for v, c in pairs:
-            expanded.extend([v] * int(c))
-        res["median"] = statistics.median(expanded) if expanded else "nan"
+        res["median"] = median_of_counts(pairs)
+        if 0 < tot <= 64:
+            # harness self-check of the arithmetic on small vectors: the literal expansion
+            expanded = []
+            for v, c in pairs:
+                expanded.extend([v] * int(c))
+            if statistics.median(expanded) != res["median"]:
+                raise AssertionError("median_of_counts disagrees with statistics.median: %r" % (pairs,))
+    if tot > 0:
+        res["near_half"] = near_half(pairs)
     return res
+
+
+def median_of_counts(pairs):
+    """Median of the individual respondents behind (value, integer count) pairs, computed
+    arithmetically: the respondents sorted by value occupy ranks 1..N, category by category; the
+    median is the mean of the values at ranks (N+1)//2 and N//2 + 1 (the same rank when N is odd).
+    'nan' for nobody.  No respondent is materialised, so N may be 1e5 or 1e15."""
+    items = sorted((v, int(c)) for v, c in pairs if c > 0)
+    N = sum(c for _v, c in items)
+    if N == 0:
+        return "nan"
+    lo, hi = (N + 1) // 2, N // 2 + 1
+    vlo = vhi = None
+    cum = 0
+    for v, c in items:
+        cum += c
+        if vlo is None and cum >= lo:
+            vlo = v
+        if cum >= hi:
+            vhi = v
+            break
+    return (vlo + vhi) / 2
+
+
+def near_half(pairs):
+    """True when some cumulative share (value order) is within 1e-9 of 1/2 WITHOUT being 1/2: the
+    float64 decisions `cum / total >= 0.5` and `== 0.5` are then within rounding of their
+    threshold (integer counts: the distance is >= 1 / (2 N), so this needs N > 5e8)."""
+    items = sorted((v, c) for v, c in pairs if c > 0)
+    N = sum(c for _v, c in items)
+    cum = 0
+    for _v, c in items:
+        cum += c
+        d = abs(Fraction(cum) / N - Fraction(1, 2))
+        if 0 < d <= Fraction(1, 10 ** 9):
+            return True
+    return False
 
 
 def sq(x):
@@ -369,6 +539,13 @@ def sq(x):
         return None
     x = float(x)
     return x * x
+
+
+def _skip_near_half(rep):
+    """a median whose cumulative share is within 1e-9 of (but not at) 1/2: skipped AND counted"""
+    if rep is not None:
+        rep.cov["skipped_near_threshold"] += 1
+        rep.dist("medians_skipped_cumulative_share_within_1e-9_of_half")
 
 
 def compare(case, io, toks, aux, rep=None):
@@ -388,8 +565,14 @@ def compare(case, io, toks, aux, rep=None):
         if fails:
             return fails
         i_mean, i_med, i_sd, i_se = (got[n][1] for n in STRAND)
+        so = oracle_vector(aux["base"], aux["vals"], False)
+        s_near = so is not None and so.get("near_half")
+        if s_near:
+            _skip_near_half(rep)
         for name, iv, mv, squared in (("scale_mean", i_mean, m_mean, False), ("scale_median", i_med, m_med, False),
                                       ("scale_std_dev", i_sd, m_var, True), ("scale_std_err", i_se, m_se, True)):
+            if name == "scale_median" and s_near:
+                continue
             if (iv is None) != (mv is None):
                 fail("strand." + name, {"impl": iv, "model": mv})
             elif iv is not None:
@@ -414,7 +597,7 @@ def compare(case, io, toks, aux, rep=None):
                     fail("strand-oracle.scale_std_dev", {"impl": i_sd, "respondents_var": o["var"]})
                 if not core.close(sq(i_se), o["var"] / o["total"]):
                     fail("strand-oracle.scale_std_err", {"impl": i_se})
-                if o["median"] is not None and not core.close(i_med, o["median"]):
+                if o["median"] is not None and not s_near and not core.close(i_med, o["median"]):
                     fail("strand-oracle.scale_median", {"impl": i_med, "respondents": o["median"]})
         return fails
 
@@ -459,6 +642,9 @@ def compare(case, io, toks, aux, rep=None):
                     continue
                 iv = g[idx]
                 x = sq(iv) if squared else iv
+                if s == "scale_median" and orc is not None and orc.get("near_half"):
+                    _skip_near_half(rep)
+                    continue
                 if not core.close(x, mv) or (squared and iv == iv and iv < 0):
                     fail(name, {"vector": idx, "subtotal": v["sub"], "is_diff": v["is_diff"], "impl": iv,
                                 "model(squared)" if squared else "model": mv, "counts": v["counts"],
@@ -496,7 +682,11 @@ def compare(case, io, toks, aux, rep=None):
         md = d.opt(d.xq)
         has_values = any(x is not None for x in vv)
         model_margin[o] = (mm, md, has_values)
+        morc = oracle_vector(mv, vv, False) if has_values else None
         for name, m in (("%s_scale_mean_margin" % o, mm), ("%s_scale_median_margin" % o, md)):
+            if "median" in name and morc is not None and morc.get("near_half"):
+                _skip_near_half(rep)
+                continue
             r = A[name]
             if not _ok(r):
                 fail(name, {"impl": r}, exception=r[1])
@@ -509,13 +699,13 @@ def compare(case, io, toks, aux, rep=None):
             if (iv is None) != (m is None) or (iv is not None and not core.close(iv, m)):
                 fail(name, {"impl": iv, "model": m, "margin_vector": mv, "vals": vv})
         # respondent level: margin vector expanded
-        orc = oracle_vector(mv, vv, False) if has_values else None
+        orc = morc
         if orc is not None and _ok(A["%s_scale_mean_margin" % o]) and _ok(A["%s_scale_median_margin" % o]):
             im = A["%s_scale_mean_margin" % o][1]
             if im is not None and not core.close(im, orc["mean"]):
                 fail("%s_scale_mean_margin.respondents" % o, {"impl": im, "respondents": orc["mean"]})
             imd = A["%s_scale_median_margin" % o][1]
-            if orc["median"] is not None:
+            if orc["median"] is not None and not orc.get("near_half"):
                 exp = None if orc["median"] == "nan" else orc["median"]
                 if (imd is None) != (exp is None) or (imd is not None and not core.close(imd, exp)):
                     fail("%s_scale_median_margin.respondents" % o, {"impl": imd, "respondents": exp})
@@ -555,15 +745,18 @@ def nontrivial(case):
 
 
 def _replayable(case):
-    return {k: case[k] for k in ("k", "strand", "shape", "response", "transforms", "hidden", "dimvals",
-                                 "integer_weights")}
+    d = {k: case[k] for k in ("k", "strand", "shape", "response", "transforms", "hidden", "dimvals",
+                              "integer_weights")}
+    if case.get("large"):
+        d["large"], d["patterns"] = True, case.get("patterns", [])
+    return d
 
 
 PROPERTY_MARKS = (".respondents", "oracle", "none", ".transformed")
 
 
 def check_case(case, rep, toks=None, io=None, aux=None):
-    fails = compare(case, io, toks, aux)
+    fails = compare(case, io, toks, aux, rep)
     live = []
     for what, detail, ctx in fails:
         c = {"what": what}
@@ -577,7 +770,7 @@ def check_case(case, rep, toks=None, io=None, aux=None):
 def run(tier, seed):
     rep = core.Report(PID, tier, seed)
     ob = core.obligations_gate(rep, PID)
-    n_cases = 500 if tier == "quick" else 6000
+    n_cases = 560 if tier == "quick" else 6800
     rng = random.Random(seed)
     todo, terms = [], []
     all_cases = [gen_case(rng, k) for k in range(n_cases)] + exhaustive_cases(tier)
@@ -601,6 +794,10 @@ def run(tier, seed):
         rep.dist("shape=" + case["shape"])
         rep.dist("valued" if nt else "no-numeric-values")
         rep.dist("integer-counts" if case["integer_weights"] else "fractional-counts")
+        if case.get("large"):
+            rep.dist("large-N (1e5..3e5 respondents per designed vector)")
+            for pat in case.get("patterns", []):
+                rep.dist("large-N vector pattern=" + pat)
         if not case["strand"]:
             n_vec += len(aux["rows"]) + len(aux["columns"])
             if case["transforms"]:
